@@ -7,8 +7,7 @@ from sa.idioms import guarded, reach_under, combine, attr_truth, infeasible_edge
 from sa.project import dotted, walk_local, AnalysisError
 from rules.c04 import registrations, removals, _kill_result_names
 
-EXPLANATION = (
-    "Event discipline decided on CFGs: R1 spawn_process publishes exactly one "
+EXPLANATION = (    "Event discipline decided on CFGs: R1 spawn_process publishes exactly one "
     "spawn event per adopted child, after the table insert, carrying that "
     "child's pid; R2 every reap emission is dominated by the pop that follows "
     "the membership test (a second reap for the same pid is a no-op); R3 every "
@@ -21,7 +20,9 @@ EXPLANATION = (
     "code writes those statuses silently; R6 every signal the supervisor sends "
     "in kill_process / send_signal_process is followed by a kill event carrying "
     "the same pid; R7 the topics and payload keys the in-package consumers "
-    "branch on are emitted by the producers. Decides these necessary "
+    "branch on are emitted by the producers."
+    "R4 also tabulates the still-running guard of reap_process (a wait status may be discarded only when waitpid returned pid 0); R8 (shared with C04 R3) the periodic sweep hands each collected status to the watcher that owns the pid. "
+    "Decides these necessary "
     "conditions, not ordering as seen through ZMQ PUB/SUB.")
 ASSUMPTIONS = ["posix platform", "events lost to slow subscribers are outside the claim"]
 
